@@ -23,6 +23,21 @@ Definition gen_matches_pname : bool :=
 Lemma gen_matches_pname_ok : gen_matches_pname = true.
 Proof. vm_compute. reflexivity. Qed.
 
+(* ------------------------------------------------------------------- fuel *)
+(* PARSE_FUEL is kept folded in all proofs (the kernel must never unroll the
+   300-deep fixpoints while checking conversions). *)
+Lemma PARSE_FUEL_val : PARSE_FUEL = 300%nat.
+Proof. reflexivity. Qed.
+Lemma parse_ref_eq m pos lim :
+  parse_ref m pos lim = parse_labels PARSE_FUEL m lim pos 0 pos false None.
+Proof. unfold parse_ref. reflexivity. Qed.
+Lemma skip_name_eq m pos lim : skip_name m pos lim = skip_labels PARSE_FUEL m lim pos 0.
+Proof. unfold skip_name. reflexivity. Qed.
+Lemma pname_labels_eq m p :
+  pname_labels m p = iter_labels PARSE_FUEL m (pn_pos p) (pn_len p) [].
+Proof. unfold pname_labels. reflexivity. Qed.
+Opaque PARSE_FUEL.
+
 (* ------------------------------------------------------- bridging: pointer *)
 Definition ptr_ok (mask shift : N) (b c : nat) : bool :=
   ptr_bits mask shift (N.of_nat b) (N.of_nat c) =? N.of_nat c + 256 * (N.of_nat b mod 64).
@@ -244,7 +259,7 @@ Qed.
 
 Theorem parse_ref_no_fuel m pos lim : parse_ref m pos lim <> OutOfFuel.
 Proof.
-  unfold parse_ref. apply parse_labels_no_fuel; [lia|]. left. unfold PARSE_FUEL. lia.
+  rewrite parse_ref_eq. apply parse_labels_no_fuel; [lia|]. left. rewrite PARSE_FUEL_val. lia.
 Qed.
 
 Lemma parse_labels_no_panic : forall fuel m lim cur nl start c e s,
@@ -264,7 +279,7 @@ Proof.
 Qed.
 
 Lemma parse_ref_no_panic m pos lim s : lim <= mlen m -> parse_ref m pos lim <> Panic s.
-Proof. intros Hl. unfold parse_ref. apply parse_labels_no_panic. assumption. Qed.
+Proof. intros Hl. rewrite parse_ref_eq. apply parse_labels_no_panic. assumption. Qed.
 
 Theorem parse_ref_total m pos lim : lim <= mlen m -> no_panic (parse_ref m pos lim).
 Proof.
@@ -308,10 +323,10 @@ Proof.
 Qed.
 
 Lemma skip_name_no_panic m pos lim s : lim <= mlen m -> skip_name m pos lim <> Panic s.
-Proof. intros Hl. unfold skip_name. apply skip_labels_no_panic. assumption. Qed.
+Proof. intros Hl. rewrite skip_name_eq. apply skip_labels_no_panic. assumption. Qed.
 
 Lemma skip_name_no_fuel m pos lim : skip_name m pos lim <> OutOfFuel.
-Proof. unfold skip_name. apply skip_labels_no_fuel; unfold PARSE_FUEL; lia. Qed.
+Proof. rewrite skip_name_eq. apply skip_labels_no_fuel; rewrite ?PARSE_FUEL_val; lia. Qed.
 
 Theorem skip_name_total m pos lim : lim <= mlen m -> no_panic (skip_name m pos lim).
 Proof.
@@ -448,23 +463,42 @@ Proof.
     cbn [rev]. rewrite <- app_assoc. reflexivity.
 Qed.
 
+Lemma parse_fuel_enough m pos ls : walk m pos ls -> N.of_nat (wire_len ls) + 1 <= 255 ->
+  (length ls < PARSE_FUEL)%nat.
+Proof.
+  intros Hw Hl. pose proof (walk_count _ _ _ Hw) as Hc.
+  rewrite PARSE_FUEL_val. lia.
+Qed.
+
+Lemma pname_labels_walk m p ls :
+  walk m (pn_pos p) ls -> pn_len p = N.of_nat (wire_len ls) + 1 -> pn_len p <= 255 ->
+  pname_labels m p = Ok (ls, true).
+Proof.
+  intros Hw Hl H255. rewrite pname_labels_eq.
+  apply (iter_labels_walk m (pn_pos p) ls Hw PARSE_FUEL (pn_len p) [] Hl).
+  eapply parse_fuel_enough; [exact Hw|]. rewrite <- Hl. exact H255.
+Qed.
+
+Lemma parse_ref_walk m pos lim p :
+  parse_ref m pos lim = Ok p -> lim <= mlen m ->
+  exists ls, walk m (pn_pos p) ls /\ pn_len p = N.of_nat (wire_len ls) + 1 /\ pn_len p <= 255.
+Proof.
+  intros H Hl. rewrite parse_ref_eq in H.
+  apply parse_labels_sound in H; [|assumption|lia].
+  destruct H as [ls [Hwalk [Hlen [H255 Hpos]]]].
+  exists ls. split; [|split; [lia|assumption]].
+  destruct Hpos as [Hpos|[_ Hpos]]; [rewrite Hpos; assumption|assumption].
+Qed.
+
 Theorem parse_ref_sound m pos lim p :
   parse_ref m pos lim = Ok p -> lim <= mlen m -> wf_bytes m ->
   exists labels, pname_labels m p = Ok (labels, true) /\
     Forall valid_label labels /\
     N.of_nat (wire_len labels) + 1 = pn_len p /\ pn_len p <= 255.
 Proof.
-  intros H Hl Hw. unfold parse_ref in H.
-  apply parse_labels_sound in H; [|assumption|lia].
-  destruct H as [ls [Hwalk [Hlen [H255 Hpos]]]].
-  assert (Hw2 : walk m (pn_pos p) ls).
-  { destruct Hpos as [Hpos|[_ Hpos]]; [rewrite Hpos; assumption|assumption]. }
-  exists ls. split.
-  - unfold pname_labels. rewrite (iter_labels_walk m (pn_pos p) ls Hw2 PARSE_FUEL (pn_len p) []).
-    + reflexivity.
-    + lia.
-    + pose proof (walk_count _ _ _ Hw2). unfold PARSE_FUEL. lia.
-  - split; [eapply walk_valid; eauto|]. split; [lia|assumption].
+  intros H Hl Hw. destruct (parse_ref_walk m pos lim p H Hl) as [ls [Hwalk [Hlen H255]]].
+  exists ls. split; [apply pname_labels_walk; assumption|].
+  split; [eapply walk_valid; eauto|]. split; [lia|assumption].
 Qed.
 
 (* without the octet hypothesis: still no panic and the length bookkeeping *)
@@ -473,23 +507,15 @@ Theorem parse_ref_iter_total m pos lim p :
   exists labels, pname_labels m p = Ok (labels, true) /\
     N.of_nat (wire_len labels) + 1 = pn_len p /\ pn_len p <= 255.
 Proof.
-  intros H Hl. unfold parse_ref in H.
-  apply parse_labels_sound in H; [|assumption|lia].
-  destruct H as [ls [Hwalk [Hlen [H255 Hpos]]]].
-  assert (Hw2 : walk m (pn_pos p) ls).
-  { destruct Hpos as [Hpos|[_ Hpos]]; [rewrite Hpos; assumption|assumption]. }
-  exists ls. split.
-  - unfold pname_labels. rewrite (iter_labels_walk m (pn_pos p) ls Hw2 PARSE_FUEL (pn_len p) []).
-    + reflexivity.
-    + lia.
-    + pose proof (walk_count _ _ _ Hw2). unfold PARSE_FUEL. lia.
-  - split; [lia|assumption].
+  intros H Hl. destruct (parse_ref_walk m pos lim p H Hl) as [ls [Hwalk [Hlen H255]]].
+  exists ls. split; [apply pname_labels_walk; assumption|]. split; [lia|assumption].
 Qed.
 
 Example parse_ref_sound_example :
   let m := [3;99;111;109;0;3;119;119;119;192;0] in
-  exists p, parse_ref m 5 11 = Ok p /\ pname_labels m p = Ok ([[119;119;119];[99;111;109]], true).
-Proof. eexists. split; vm_compute; reflexivity. Qed.
+  parse_ref m 5 11 = Ok (mkPName 5 9 true 11) /\
+  pname_labels m (mkPName 5 9 true 11) = Ok ([[119;119;119];[99;111;109]], true).
+Proof. split; vm_compute; reflexivity. Qed.
 
 (* the unchecked iterator is NOT safe on names that were not validated: the
    panics the validation excludes are real *)
@@ -521,4 +547,4 @@ Proof.
 Qed.
 
 Lemma parse_ref_end m pos lim p : pos <= lim -> parse_ref m pos lim = Ok p -> pn_end p <= lim.
-Proof. intros Hp H. unfold parse_ref in H. eapply parse_labels_end; [| |exact H]; [assumption|exact I]. Qed.
+Proof. intros Hp H. rewrite parse_ref_eq in H. eapply parse_labels_end; [| |exact H]; [assumption|exact I]. Qed.
